@@ -556,7 +556,9 @@ def check(run):
     for l, p in zip(lines, parsed):
         if p["status"] == "ok":
             dist_add(dist, kvs(l), p["state"])
-    if not ok and not run.violations:
+    known = [k for k in run.load_known() if k[0] == run.prop]
+    fresh = [v for v in run.violations if not any(re.fullmatch(k[1], v["sig"]) for k in known)]
+    if not ok and not fresh:
         run.violation("proof:%s" % failed, "proof", "proof obligation no longer checks: %s\n%s" % (failed, log[-1500:]), {"theorem": failed, "coq_log": log[-3000:]})
     distinct = set()
     for l, p in zip(lines, parsed):
